@@ -1598,7 +1598,13 @@ class Parameters:
             time_consts_round3,
         )
         INCREASE_FEED = True
-        if INCREASE_FEED and interpreted_results_round1 is not None:
+        # the top-up below offsets the extra meat people get from the fed animals: without meat consumption
+        # (cull = dont_eat_culled) there is nothing to offset
+        if (
+            INCREASE_FEED
+            and interpreted_results_round1 is not None
+            and constants_inputs["ADD_MEAT"]
+        ):
             # we are offsetting the increase in meat from round 3 by adding half that increase as increased biofuel,
             # and if we hit biofuel caps, then increased feed. It helps hit the X% minimum fed before feeding biofuel
             # or feed actually be ~X%, rather than X% + (the percent of feed displaced by meat)
